@@ -21,7 +21,7 @@ import subprocess
 import sys
 
 V = os.path.dirname(os.path.dirname(os.path.abspath(__file__)))
-OUT = "/root/work/automut"
+OUT = os.environ.get("AUTOMUT_OUT", "/root/work/automut")
 FILES = [
     "pywhy_graphs/networkx/algorithms/causal/m_separation.py",
     "pywhy_graphs/networkx/algorithms/causal/mixed_edge_moral.py",
@@ -236,9 +236,19 @@ def run_one(m):
         open(p, "w").write(new)
         line = [l for l in subprocess.run(["git", "-C", wt, "diff", "-U0", "--stat"], capture_output=True, text=True).stdout.splitlines()]
         res["diffstat"] = line[-1].strip() if line else ""
-        b = subprocess.run([os.path.join(V, "tools", "baseline.py"), wt], capture_output=True, text=True)
-        res["suite"] = b.stdout.splitlines()[0] if b.stdout else "?"
-        if b.returncode != 0:
+        import signal
+        bp = subprocess.Popen([os.path.join(V, "tools", "baseline.py"), wt], stdout=subprocess.PIPE, stderr=subprocess.DEVNULL,
+                              text=True, start_new_session=True)
+        try:
+            bout, _ = bp.communicate(timeout=420)       # the unchanged suite takes about 80 s
+        except subprocess.TimeoutExpired:
+            os.killpg(bp.pid, signal.SIGKILL)
+            bp.wait()
+            res["suite"] = "hangs (> 420 s)"
+            res["status"] = "killed-by-test-suite"
+            return res
+        res["suite"] = bout.splitlines()[0] if bout else "?"
+        if bp.returncode != 0:
             res["status"] = "killed-by-test-suite"
             return res
         open(p + ".am.diff", "w").write("")
@@ -268,7 +278,8 @@ def run(jobs, first, last):
         done = set(json.loads(l)["id"] for l in open(rp))
     ms = [m for m in ms if m["id"] not in done]
     with cf.ThreadPoolExecutor(max_workers=jobs) as ex:
-        for r in ex.map(run_one, ms):
+        for fut in cf.as_completed([ex.submit(run_one, m) for m in ms]):
+            r = fut.result()
             with open(rp, "a") as f:
                 f.write(json.dumps(r) + "\n")
             print(r["id"], r["file"].split("/")[-1], r["fn"], r["line"], r["kind"], r["status"],
